@@ -138,3 +138,46 @@ pub fn pre_commit_skip(v: &Value) -> Value {
     let _ = std::fs::remove_dir_all(&dir);
     json!({"touched": touched, "run": out})
 }
+
+/// K4b: {kinds: [...], pre_commit}: the file of every checkpoint entry is an UNTRACKED file `a` that changed
+/// since; the real checkpoint::run reports how many files it looked at
+pub fn pre_commit_untracked(v: &Value) -> Value {
+    let (dir, _) = scratch();
+    let git = |args: &[&str]| {
+        let o = std::process::Command::new("git")
+            .args(args)
+            .current_dir(&dir)
+            .env("GIT_AUTHOR_NAME", "v")
+            .env("GIT_AUTHOR_EMAIL", "v@v")
+            .env("GIT_COMMITTER_NAME", "v")
+            .env("GIT_COMMITTER_EMAIL", "v@v")
+            .output()
+            .unwrap();
+        assert!(o.status.success(), "git {:?}: {}", args, String::from_utf8_lossy(&o.stderr));
+        String::from_utf8_lossy(&o.stdout).trim().to_string()
+    };
+    std::fs::write(dir.join("z"), "z\n").unwrap();
+    git(&["add", "z"]);
+    git(&["commit", "-q", "-m", "c1"]);
+    let head = git(&["rev-parse", "HEAD"]);
+    std::fs::write(dir.join("a"), "one\n").unwrap();
+    let repo = git_ai::git::find_repository_in_path(dir.to_str().unwrap()).expect("repo");
+    let wl = repo.storage.working_log_for_base_commit(&head);
+    let mut cks = Vec::new();
+    for (i, k) in v["kinds"].as_array().unwrap().iter().enumerate() {
+        let k = k.as_str().unwrap();
+        let la = if k == "Human" { vec![] } else { vec![LineAttribution::new(1, 1, "s1".into(), None)] };
+        let e = WorkingLogEntry::new("a".to_string(), format!("b{i}"), vec![], la);
+        cks.push(Checkpoint::new(kind(k), "d".into(), "x".into(), vec![e]));
+    }
+    wl.write_all_checkpoints(&cks).unwrap();
+    std::fs::write(dir.join("a"), "zero\none\n").unwrap();
+    let pre = v["pre_commit"].as_bool().unwrap_or(true);
+    let r = git_ai::commands::checkpoint::run(&repo, "user", CheckpointKind::Human, false, false, true, None, pre);
+    let out = match r {
+        Ok((a, b, c)) => json!({"ok": true, "result": [a, b, c]}),
+        Err(e) => json!({"ok": false, "error": e.to_string()}),
+    };
+    let _ = std::fs::remove_dir_all(&dir);
+    json!({"run": out})
+}
